@@ -289,6 +289,13 @@ const EXTREMES: [i64; 26] = [
 
 fn value_for(r: &mut Rng, dt: Dt, cons_vals: &[i64]) -> i64 {
     let rg = dt.range();
+    // mostly values the declared constraint admits
+    if !cons_vals.is_empty() && r.chance(2, 5) {
+        if cons_vals.len() == 2 && cons_vals[0] <= cons_vals[1] && r.chance(1, 2) {
+            return r.range(cons_vals[0].max(i64::MIN / 2), cons_vals[1].min(i64::MAX / 2));
+        }
+        return *r.pick(cons_vals);
+    }
     match r.below(16) {
         0..=5 => match rg {
             Some((lo, hi)) => r.range(lo, hi),
@@ -393,7 +400,7 @@ fn gen_ops(r: &mut Rng, refs: &[Ref], n: usize) -> Vec<String> {
             continue;
         }
         let rf = &refs[r.below(refs.len() as u64) as usize];
-        if r.chance(1, 4) {
+        if r.chance(if rf.texts.is_some() { 2 } else { 1 }, if rf.texts.is_some() { 5 } else { 12 }) {
             // by text: known ids 0..n-1, sometimes unknown
             let nt = rf.texts.as_ref().map(|t| t.len()).unwrap_or(0) as u64;
             let id = if nt > 0 && !r.chance(1, 6) { r.below(nt) } else { 50 + r.below(3) };
@@ -432,7 +439,7 @@ fn emit(out: &mut dyn FnMut(String), consts: &[(usize, Vec<u8>)], refs: &[Ref], 
 
 pub fn gen(seed: u64, thorough: bool, out: &mut dyn FnMut(String)) {
     let mut r = Rng::new(seed ^ 0xC20);
-    let scale = if thorough { 12 } else { 1 };
+    let scale = if thorough { 40 } else { 1 };
 
     // --- the mock.gsd layout and the DESIGN witness, literally
     out("PRM c0:0000000000000000000000ff r5:1:b0:0:m0,1:t0=0,1=1 r5:2:a1-2:0:m0,3:t0=0,1=1,2=2,3=3 ; t1=1 ; t1=77 ; t2=1 ; t2=77 ; s999=0".into());
